@@ -811,7 +811,7 @@ namespace jsonpath {
     std::pair<Json*,bool> get(Json& root, const basic_json_location<typename Json::char_type>& location)
     {
         Json* p_current = std::addressof(root);
-        bool found = false;
+        bool found = location.size() == 0; // the empty location ("$") addresses the root itself
 
         std::size_t last = location.size() == 0 ? 0 : location.size() - 1;
         for (std::size_t i = 0; i < location.size(); ++i)
